@@ -531,3 +531,19 @@ func upperKeys(line string) string {
 	}
 	return strings.Join(parts, ";")
 }
+
+// the oracle's own reading of an fmtp line's apt parameter (last one wins)
+func c15HasApt(c cdc) (string, bool) {
+	val, ok := "", false
+	for _, p := range strings.Split(c.Line, ";") {
+		kv := strings.SplitN(strings.TrimSpace(p), "=", 2)
+		if strings.ToLower(kv[0]) == "apt" {
+			val, ok = "", true
+			if len(kv) > 1 {
+				val = kv[1]
+			}
+		}
+	}
+	return val, ok
+}
+
